@@ -203,8 +203,14 @@ def run_case(ctx, index):
                 dropped_exp, did_drop = drop_empty_other(filt, axis)
                 proper = len(sub) < len(ids)
                 if variant == 'hdf5':
+                    import pandas as pd
+                    cont = r.choice([list, list, tuple,
+                                     lambda x: np.array(x, dtype=object),
+                                     lambda x: pd.Index(x, dtype=object)]) \
+                        if sub else list
                     with h5py.File(h5p, 'r') as f:
-                        res = biom.Table.from_hdf5(f, ids=list(sub), axis=axis)
+                        res = biom.Table.from_hdf5(f, ids=cont(sub),
+                                                   axis=axis)
                     _cmp(res, dropped_exp, 'C14/hdf5-subset', desc)
                     ctx.count('hdf5_default')
                     if did_drop:
@@ -330,6 +336,18 @@ def run_case(ctx, index):
         r.shuffle(req)
         desc = dict(desc0, ids=req, unknown=bogus)
         if variant in ('hdf5', 'hdf5-nomd'):
+            # the request may come in any id container
+            kind = r.choice(['list', 'list', 'tuple', 'objarray',
+                             'pandas-index', 'pandas-series', 'strarray'])
+            desc['request_container'] = kind
+            import pandas as pd
+            req = {'list': list, 'tuple': tuple,
+                   'objarray': lambda x: np.array(x, dtype=object),
+                   'strarray': lambda x: np.array(x, dtype=str),
+                   'pandas-index': lambda x: pd.Index(x, dtype=object),
+                   'pandas-series': lambda x: pd.Series(x, dtype=object)
+                   }[kind](req)
+            ctx.count('unknown_id_request_containers')
             try:
                 with h5py.File(h5p, 'r') as f:
                     biom.Table.from_hdf5(
